@@ -252,11 +252,13 @@ AdmitZ(o) == o \notin LocalCauses
 QCause(o) == IF o \in LocalCauses THEN o ELSE "response"
 ZCause(o) == IF o \in LocalCauses THEN o ELSE "authority"
 
-(* z = -1: no all-servers-failed signal; otherwise the zone whose every server failed *)
+(* z = -1: no all-servers-failed signal; otherwise the zone whose every server failed.
+   "shed" is a SERVFAIL another cache layer shed with the probe-limit mark: it never comes
+   with a zone signal (the resolver never sees it as a lookup error). *)
 ValidOutcome(k, o, z) ==
   /\ o \in Outcomes
   /\ \/ z = -1 /\ o # "authfail"
-     \/ z \in ZNames /\ AtOrAbove(z, k[1]) /\ o \notin {"useful", "servfail"}
+     \/ z \in ZNames /\ AtOrAbove(z, k[1]) /\ o \notin {"useful", "servfail", "shed"}
   /\ (o \in {"servfail", "authfail"} => (fq[k] # None \/ Live < MaxLive))
 
 (* what the downstream outcome does to the shared state *)
